@@ -37,7 +37,7 @@ fn check(ctx: &mut Ctx, input: &str) {
     }
     for f in single_input_findings(input, &o, true) {
         ctx.out.violation(
-            format!("C15:sigma:{}", f.class),
+            vkip::c15_signature("sigma", &f.class, ""),
             format!("{} on input {:?}: {}", f.class, input, f.detail),
             json!({"case": input}),
         );
